@@ -410,6 +410,11 @@ class State(object):
             self.nefacts.add(d)
             return self.trim(a)
         self.nefacts.add(d)
+        # integers: d >= 0 and d != 0 give d >= 1 (cursor != end under cursor <= end)
+        if self.is_ge0(d) is True:
+            return self.assume_ge0(d - 1)
+        if self.is_ge0(-d) is True:
+            return self.assume_ge0(-d - 1)
         return True
 
     def trim(self, a):
